@@ -144,7 +144,7 @@ fn draw_sni(rng: &mut Rng, hosts: &[&Hosts]) -> Option<String> {
     match rng.below(10) {
         0 => None,
         1 => Some("unknown.test".into()),
-        2 | 3 => Some(format!("creds{}.{}", rng.below(5), rng.pick(&h.main).hostname)),
+        2 | 3 => Some(format!("creds-canary-{}.{}", rng.below(5), rng.pick(&h.main).hostname)),
         4 => h.main.iter().flat_map(|m| m.allowed_sni.iter()).next().cloned().or_else(|| Some(rng.pick(&all).hostname.clone())),
         5 => Some((*rng.pick(NAMES)).to_string()),
         _ => Some(rng.pick(&all).hostname.clone()),
@@ -382,6 +382,9 @@ async fn run(plan: DPlan) -> Obs {
                 world::note(500 + k as u32, r.is_ok() as u64, *fault as u64);
             }
             DOp::Connect { sni, alpn, stall_us } => {
+                if let Some(label) = sni.as_ref().and_then(|s| s.split('.').next()).filter(|l| l.starts_with("creds-canary-")) {
+                    sim::canary("sni-credentials", label);
+                }
                 let sni = sni.clone();
                 let alpn = alpn.clone();
                 let stall = *stall_us;
@@ -450,7 +453,12 @@ async fn one_connection(
     };
     let cert = tls.cert;
     let negotiated = tls.alpn.clone();
-    let host = sni.clone().unwrap_or_else(|| "none".into());
+    // the Host of the probe is the designated host's name, not the credentials-carrying SNI
+    let host = match sni.as_deref() {
+        Some(s) if s.starts_with("creds-canary-") => s.split_once('.').map(|x| x.1.to_string()).unwrap_or_else(|| s.to_string()),
+        Some(s) => s.to_string(),
+        None => "none".into(),
+    };
     // the probe: one request that every channel answers differently
     let auth = basic_auth("u0", "p0-secret-password");
     let (status, body): (Option<u16>, Vec<u8>) = if negotiated.as_deref() == Some(b"h2") {
